@@ -430,14 +430,29 @@ impl Walrus {
                             Ok(v) => v,
                             Err(_) => continue,
                         };
+                        const TAIL_FLAG: u64 = 1u64 << 63;
                         let mut ib = pos.cur_block_idx as usize;
+                        let mut off = pos.cur_block_offset;
+                        if (pos.cur_block_idx & TAIL_FLAG) != 0 {
+                            // A tail position names a block id, not a chain index. Treating it
+                            // as a (huge) index marked every recovered block as consumed and
+                            // made files with unread entries eligible for deletion.
+                            let tail_block_id = pos.cur_block_idx & (!TAIL_FLAG);
+                            match info.chain.iter().position(|b| b.id == tail_block_id) {
+                                Some(i) => ib = i,
+                                None => {
+                                    ib = info.chain.iter().filter(|b| b.id < tail_block_id).count();
+                                    off = 0;
+                                }
+                            }
+                        }
                         if ib > info.chain.len() {
                             ib = info.chain.len();
                         }
                         info.cur_block_idx = ib;
                         if ib < info.chain.len() {
                             let used = info.chain[ib].used;
-                            info.cur_block_offset = pos.cur_block_offset.min(used);
+                            info.cur_block_offset = off.min(used);
                         } else {
                             info.cur_block_offset = 0;
                         }
@@ -547,6 +562,12 @@ impl Walrus {
                                         );
                                     }
                                 }
+                            } else if let Some(per_block) = topic_block_entry_counts.get(topic) {
+                                // empty tail block (not recovered): the blocks allocated
+                                // before it are consumed
+                                let before = info.chain.iter().filter(|b| b.id < tail_block_id).count();
+                                consumed_entries = consumed_entries
+                                    .saturating_add(per_block.iter().take(before).copied().sum::<u64>());
                             }
                         } else {
                             let block_idx = (pos.cur_block_idx as usize).min(info.chain.len());
